@@ -521,7 +521,14 @@ func checkCase(c Case) error {
 			}
 			wrongSize := len(before.lists[k].Entries) > 0 && uint32(len(e.Data))+16 != before.lists[k].Size
 			mustFail := inList || (lty == esl.SHA256 && len(e.Data) != 32) || wrongSize
-			err := l.AppendBytes(lo, d)
+			var err error
+			if (op.Pick+op.Data)%2 == 0 {
+				err = l.AppendBytes(lo, d)
+			} else {
+				// the other list-level route: the entry as a value
+				hx.Class("listappend_through_AppendSignature")
+				err = l.AppendSignature(signature.SignatureData{Owner: lo, Data: append([]byte{}, d...)})
+			}
 			after, serr := snapshot(db)
 			if serr != nil {
 				return fmt.Errorf("%s: list-level append on member list %d (%s, size %d) left an inconsistent database: %v", step, k, typeName(lty), before.lists[k].Size, serr)
@@ -568,7 +575,13 @@ func checkCase(c Case) error {
 					inList = true
 				}
 			}
-			err := l.RemoveBytes(adapt.Lib(e.Owner), e.Data)
+			var err error
+			if (op.Pick+op.List)%2 == 0 {
+				err = l.RemoveBytes(adapt.Lib(e.Owner), e.Data)
+			} else {
+				hx.Class("listremove_through_RemoveSignature")
+				err = l.RemoveSignature(signature.SignatureData{Owner: adapt.Lib(e.Owner), Data: append([]byte{}, e.Data...)})
+			}
 			after, serr := snapshot(db)
 			if serr != nil {
 				return fmt.Errorf("%s: list-level remove on member list %d left an inconsistent database: %v", step, k, serr)
